@@ -157,6 +157,37 @@ theorem C13_url_error_roundtrip (cu : Custom) (e : SErr) (q : Bytes) (path : Str
     simp [decodeErrUrl, b64Decode_encode (ser e) hser, C13_error_roundtrip_bytes cu e h.1 h.2]
   · rw [queryGetLast_append_miss pathKey errKey _ _ (fun h => hne h.symm), queryGetLast_append_hit]
 
+/-- **URL round trip at the level of the whole URL**: for every absolute base URL — with or without
+query, fragment, stale error pairs — `to_url` succeeds, keeps everything before the query and the fragment,
+and the error and path read back from the result are the ones that were written. -/
+theorem C13_to_url_roundtrip (cu : Custom) (e : SErr) (base : Bytes) (path : Str) (h : e.WellFormed cu)
+    (hs : hasScheme base = true) :
+    ∃ u, toUrl base (utf8Encode path) (ser e) = some u ∧
+      (queryGetLast errKey (Url.formParse ((splitUrl u).query.getD []))).map (decodeErrUrl cu) = some e ∧
+      queryGetLast pathKey (Url.formParse ((splitUrl u).query.getD [])) = some (utf8Encode path) ∧
+      (splitUrl u).pre = (splitUrl base).pre ∧ (splitUrl u).frag = (splitUrl base).frag := by
+  obtain ⟨hpre, hq⟩ := splitUrl_clean base
+  have hser : IsBytes (ser e) := utf8Encode_bytes _
+  have hascii := b64Encode_ascii (ser e) hser
+  have hb64 : IsBytes (b64Encode (ser e)) := fun x hx => by have := hascii x hx; omega
+  have hp : IsBytes (utf8Encode path) := utf8Encode_bytes _
+  obtain ⟨pk1, _, ek1, _, _⟩ := pathKey_props
+  have hq1 := appendPair_no_hash _ pathKey (utf8Encode path) pk1 hp hq
+  have hq2 := appendPair_no_hash _ errKey (b64Encode (ser e)) ek1 hb64 hq1
+  have hsplit := splitUrl_joinUrl (splitUrl base).pre _ (splitUrl base).frag hpre hq2
+  have hrt := C13_url_error_roundtrip cu e ((splitUrl base).query.getD []) path h
+  simp only at hrt
+  refine ⟨joinUrl ⟨(splitUrl base).pre, some (appendPair (appendPair ((splitUrl base).query.getD []) pathKey
+    (utf8Encode path)) errKey (b64Encode (ser e))), (splitUrl base).frag⟩, ?_, ?_⟩
+  · simp only [toUrl, hs, if_true]
+  · rw [hsplit]
+    exact ⟨hrt.1, hrt.2, rfl, rfl⟩
+
+/-- relative references are refused by `Url::parse`: `to_url` returns an error, nothing is written -/
+theorem C13_to_url_relative (base path errSer : Bytes) (hs : hasScheme base = false) :
+    toUrl base path errSer = none := by
+  simp [toUrl, hs]
+
 /-- `decode_err` undoes `URL_SAFE.encode(e.ser())` -/
 theorem C13_decode_err_url_roundtrip (cu : Custom) (e : SErr) (h : e.WellFormed cu) :
     decodeErrUrl cu (b64Encode (ser e)) = e := by
@@ -313,6 +344,30 @@ theorem C13_client_total {E β : Type} (ec : ErrCodec E) (co : Codec β) (res : 
   · split
     · next o ho => right; left; exact ⟨o, ho, rfl⟩
     · next m hm => right; right; exact ⟨m, hm, rfl⟩
+
+/-- the codec the driver instantiates the pipeline with (the harness' `HexEncoding`) satisfies the codec
+law on byte strings -/
+theorem hexCodec_roundtrip (a : Bytes) (ha : IsBytes a) :
+    ∃ b, hexCodec.enc a = .ok b ∧ hexCodec.dec b = .ok a := by
+  refine ⟨_, rfl, ?_⟩
+  have hd : ∀ n, n < 16 → Wire.hexVal? (Wire.hexDigit n) = some n := by decide
+  have hc : ∀ n, n < 16 → Char.ofNat (Wire.hexDigit n).toNat = Wire.hexDigit n := fun n _ => Char.ofNat_toNat _
+  have key : ∀ l : Bytes, IsBytes l →
+      Wire.bytesOfHexChars (((l.flatMap fun b => [Wire.hexDigit (b / 16 % 16), Wire.hexDigit (b % 16)]).map Char.toNat).map Char.ofNat) = some l := by
+    intro l
+    induction l with
+    | nil => intro _; rfl
+    | cons b bs ih =>
+      intro hl
+      have hb : b < 256 := hl b (by simp)
+      have ih' := ih (fun x hx => hl x (by simp [hx]))
+      simp only [List.flatMap_cons, List.map_cons, List.cons_append, List.nil_append,
+        Char.ofNat_toNat, Wire.bytesOfHexChars, hd (b / 16 % 16) (by omega), hd (b % 16) (by omega)]
+      simp only [List.map_map] at ih'
+      simp only [List.map_map, ih']
+      congr 2; omega
+  simp only [hexCodec]
+  rw [key a ha]
 
 /-! ## streaming text through the generic back end -/
 
